@@ -45,4 +45,4 @@ META = dict(
     technique="runtime monitoring: fill patterns + interval registry + accounting model + page interposition + TSan/ASan/LSan",
 )
 
-CFG["rule"] += (" " + 'Additions: half of the threaded scenarios keep a second single-threaded allocator instance alive and in use on the main thread; every 64th sequential case requests 2^31-1 .. 2^33+513 bytes through a parent that records request sizes (address-space-only mappings); once per -O2 stage 65 600+ completely full pages of one class are kept alive and late pages emptied.')
+CFG["rule"] += (" " + 'Additions: half of the threaded scenarios keep a second single-threaded allocator instance alive and in use on the main thread; every 64th sequential case requests 2^31-1 .. 2^33+513 bytes through a parent that records request sizes (address-space-only mappings); once per -O2 stage 65 600+ completely full pages of one class are kept alive and late pages emptied. One block in eight is filled with hostile content: every 16 bytes start with the 8-byte marker of the allocator\'s own page headers (never both markers of a header in place), so the is-this-my-chunk test at the 4 KiB boundary below a parent-served block meets it in neighbouring live blocks.')
